@@ -217,8 +217,10 @@ impl FileSystem for OverlayFS {
     fn append_file(&self, path: &str) -> VfsResult<Box<dyn SeekAndWrite + Send>> {
         let write_path = self.write_path(path)?;
         if !write_path.exists()? {
+            // look the file up before anything is written to the write layer
+            let read_path = self.read_path(path)?;
             self.ensure_has_parent(path)?;
-            self.read_path(path)?.copy_file(&write_path)?;
+            read_path.copy_file(&write_path)?;
         }
         write_path.append_file()
     }
